@@ -128,8 +128,10 @@ pub fn judge(case: &Case, stats: &mut Stats) -> (Judgement, Option<Outcome>) {
             sig.clone(),
             "a file was loaded while already being loaded, but the compilation succeeded".into(),
         ),
-        (Res::Err { text, .. }, true) => {
-            if text.contains("find stylesheet") || text.contains("not found") {
+        (Res::Err { text, class }, true) => {
+            // resolution failures are C04's business; a parse error means the generated
+            // syntax is not understood by this rsass, which says nothing about loading
+            if text.contains("find stylesheet") || text.contains("not found") || *class == ErrClass::Parse {
                 stats.inc("other_error");
                 Judgement::Unjudged("other_error")
             } else {
